@@ -6,7 +6,7 @@ from simkit import core
 
 MACS = ['f8:8f:ca:12:34:56', '00:1A:2B:3C:4D:5E', 'aB:cD:eF:01:23:45', 'de:ad:be:ef:00:01']
 
-N_SHAPES = 14
+N_SHAPES = 15
 
 
 class MacHolder(object):
@@ -61,6 +61,11 @@ def emit(logger, shape, n):
     logger.info('xlog %d no mac but colons 12:30 and aa:bb', n)
   elif shape == 13:
     logger.critical('xlog %d [%s]', n, mac.lower())
+  elif shape == 14:
+    import warnings
+    with warnings.catch_warnings():
+      warnings.simplefilter('ignore')
+      logger.warn('xlog %d via the deprecated warn() %s', n, mac)
   else:
     raise AssertionError(shape)
 
